@@ -900,7 +900,10 @@ def hy_compile(
     if not get_expr:
         result += result.expr_as_stmt()
 
-    result.stmts = list(map(ResolveOuterVars().visit, result.stmts))
+    # (A top-level `nonlocal` or `global` is replaced by a list of
+    # statements, like a nested one.)
+    result.stmts = ResolveOuterVars().visit(
+        ast.Module(body=result.stmts, type_ignores=[])).body
 
     body = []
 
